@@ -109,6 +109,12 @@ func runCase(srv *brokers.Nats, c Case, traces map[string]*bufio.Writer) {
 			}
 		case "slow":
 			time.Sleep(time.Millisecond)
+		case "beyond-watermark":
+			select {
+			case <-stopCalled:
+			case <-time.After(3 * time.Second):
+			}
+			time.Sleep(80 * time.Millisecond) // eight high watermarks inside the handler while the server shuts down
 		}
 	}
 	proc.onEnd = func(id int) {
@@ -136,7 +142,7 @@ func runCase(srv *brokers.Nats, c Case, traces map[string]*bufio.Writer) {
 	})
 	oconn.Flush()
 	server := frugal.NewFNatsServerBuilder(sconn, proc, rig.ProtocolFactory("binary"), []string{subject}).
-		WithWorkerCount(uint(c.Workers)).WithQueueLength(uint(c.QLen)).Build()
+		WithWorkerCount(uint(c.Workers)).WithQueueLength(uint(c.QLen)).WithHighWatermark(map[bool]time.Duration{true: 10 * time.Millisecond, false: 5 * time.Second}[c.Hold == "beyond-watermark"]).Build()
 	serveDone := make(chan struct{})
 	go func() {
 		server.Serve()
